@@ -80,15 +80,23 @@ package fstree
 // combined writes, so a write - failed or not - must leave it released.
 //@ ghost field mutexHeld(m *sync.Mutex) bool
 //@ callrule c13_mutex_lock in (*linuxWriter).writeCombinedFile
-//@   property C13
+//@   property C13 C12
 //@   callee (*sync.Mutex).Lock
 //@   assigns mutexHeld
 //@   defines mutexHeld(self) && (forall o *sync.Mutex :: o != self ==> mutexHeld(o) == old(mutexHeld(o)))
 //@ callrule c13_mutex_unlock in (*linuxWriter).writeCombinedFile
-//@   property C13
+//@   property C13 C12
 //@   callee (*sync.Mutex).Unlock
 //@   assigns mutexHeld
 //@   defines !mutexHeld(self) && (forall o *sync.Mutex :: o != self ==> mutexHeld(o) == old(mutexHeld(o)))
+// (C12) Whether the current batch has been flushed already is asked with the batch's own lock
+// held: the timer-driven sync flushes - and closes the descriptor - under that lock, so an
+// answer "not flushed yet" taken without it may be stale by the time the entry is written (into
+// a descriptor number that may belong to another file by then).
+//@ callrule c12_batch_readiness_polled_under_its_lock in (*linuxWriter).writeCombinedFile
+//@   property C12 C13
+//@   callee chanpoll(syncBatch.ready)
+//@   requires [poll_under_the_batch_lock] mutexHeld(fieldaddr(a0, "lock"))
 //@ func (*linuxWriter).writeCombinedFile
 //@   property C13
 //@   valid w != nil
